@@ -454,12 +454,15 @@ func (r *Rule) transformArg(arg types.MatchData, argIdx int, cache map[transform
 		// Typical case: shared prefix cached → start computing from there.
 		startIdx := 0
 		value := arg.Value()
+		argValuePtr, argValueLen := unsafe.StringData(value), len(value)
 		var errs []error
 
 		for i := len(r.transformationPrefixIDs) - 1; i >= 0; i-- {
 			key := transformationKey{
 				argKey:            argKeyPtr,
 				argIndex:          argIdx,
+				argValue:          argValuePtr,
+				argValueLen:       argValueLen,
 				argVariable:       arg.Variable(),
 				transformationsID: r.transformationPrefixIDs[i],
 			}
@@ -488,6 +491,8 @@ func (r *Rule) transformArg(arg types.MatchData, argIdx int, cache map[transform
 			key := transformationKey{
 				argKey:            argKeyPtr,
 				argIndex:          argIdx,
+				argValue:          argValuePtr,
+				argValueLen:       argValueLen,
 				argVariable:       arg.Variable(),
 				transformationsID: r.transformationPrefixIDs[i],
 			}
